@@ -389,6 +389,9 @@ class Loops(object):
     def symbolic_comprehension(self, I, ctx, fr, node, kind, gen, itv):
         from .interp import Frame
         from . import models as M
+        from .models2 import VItems
+        if isinstance(itv, VItems):
+            return self.items_comprehension(I, ctx, fr, node, kind, gen, itv)
         q = I._as_seq(ctx, itv)
         if q is None:
             s = I._as_set(ctx, itv)
@@ -433,6 +436,35 @@ class Loops(object):
             return cols[0]
         return ctx.alloc(HList(z=cols[0].z, et=cols[0].et))
 
+    def items_comprehension(self, I, ctx, fr, node, kind, gen, itv):
+        """[(k, v) for k, v in d.items() if cond(k)] over a symbolic dict: the
+        result is the restriction of d to the keys satisfying cond."""
+        from .interp import Frame
+        from . import models as M
+        from .models2 import VPairs
+        dom, arr, kt, vt = M.dict_sym(I, ctx, itv.dv)
+        kx = z3.Const('comp!k', kt.zsort)
+        cfr = Frame(fr.module, fr.qualname, {}, parent=fr, cls=fr.cls, spec=True)
+        cfr.selfv = fr.selfv
+        saved_pc = len(ctx.pc)
+        ctx.no_branch = getattr(ctx, 'no_branch', 0) + 1
+        try:
+            kv = kt.wrap(kx)
+            vv = vt.wrap(z3.Select(arr, kx))
+            I.assign(ctx, cfr, gen.target, VTuple([kv, vv]), node)
+            conds = [I.truth(ctx, I.ev(ctx, cfr, c)) for c in gen.ifs]
+            cond = Z.simp(Z.And(*conds)) if conds else Z.TRUE
+            elt = I.ev(ctx, cfr, node.elt) if kind != 'dict' else VTuple([I.ev(ctx, cfr, node.key), I.ev(ctx, cfr, node.value)])
+        finally:
+            ctx.no_branch -= 1
+        del ctx.pc[saved_pc:]
+        if not (isinstance(elt, VTuple) and len(elt.items) == 2 and elt.items[0] is kv and elt.items[1] is vv):
+            raise Unsupported('comprehension over dict items that is not a key filter', node)
+        ndom = z3.Lambda([kx], z3.And(z3.IsMember(kx, dom), cond))
+        if kind == 'dict':
+            return ctx.alloc(HDict(dom=ndom, arr=arr, kt=kt, vt=vt))
+        return VPairs(ndom, arr, kt, vt)
+
     def _embed(self, I, ctx, v, node):
         if isinstance(v, VInt):
             return TInt, v.z
@@ -446,6 +478,8 @@ class Loops(object):
             return TSeq(v.et), v.z
         if isinstance(v, VSet):
             return TSet(v.et), v.z
+        if isinstance(v, VNames):
+            return TNames, v.z
         if isinstance(v, (VRef, VNone, VCallable, VOpt, VTuple)):
             return TObj(), box(v, ctx)
         raise Unsupported('comprehension element %r' % (v,), node)
